@@ -439,10 +439,12 @@ fn validate(ctx: &Context<impl Channel>) -> Result<(), Error> {
     if p_out.is_empty() {
         return Err(Error::MissingOutputParties);
     }
+    let mut is_output_party = vec![false; p_max];
     for output_party in p_out {
-        if *output_party >= p_max {
+        if *output_party >= p_max || is_output_party[*output_party] {
             return Err(Error::InvalidOutputParty(*output_party));
         }
+        is_output_party[*output_party] = true;
     }
 
     Ok(())
